@@ -23,7 +23,7 @@ META = {
                     "answers delayed between 2h-2.1 and 2h+2 s, periodic traffic slower than h-1.1 without answers, and sessions that are not ACTIVE are unspecified, except that an inbound TestRequest, the echo of an outstanding TestReqID and a wrong TestReqID are also judged when they arrive numbered ahead of an open gap"],
 }
 REQUIRED_ORACLES = ["silent:testrequest-time", "silent:disconnect-time", "live:survives", "echo:testreqid", "one-outstanding", "wrong-id:logout"]
-REQUIRED_COUNTERS = ["probe_writes_refused", "renumberings_while_a_testrequest_was_outstanding", "orders_sent_into_the_silence"]
+REQUIRED_COUNTERS = ["early_probes_refused", "probe_writes_refused", "renumberings_while_a_testrequest_was_outstanding", "orders_sent_into_the_silence"]
 NSHARDS = 16
 HB = {"quick": [1, 2, 3, 5, 10, 30], "thorough": [1, 2, 3, 4, 5, 6, 7, 8, 9, 10, 11, 12, 15, 20, 30, 45, 60]}
 PHASES = {"quick": [0.0, 0.25, 0.5, 0.9], "thorough": [0.0, 0.1, 0.2, 0.3, 0.4, 0.5, 0.6, 0.7, 0.8, 0.95]}
@@ -51,6 +51,12 @@ def scenarios(tier):
                 out.append((h, role, ph, "answer-twice", 0))
                 out.append((h, role, ph, "app-test-req", 0))
                 out.append((h, role, ph, "inbound-testreq", 0))
+                if ph in (0.0, 0.5):
+                    # the application probed too early (before the Logon exchange completed): the probe was refused, nothing went out -
+                    # so nothing is outstanding, and the watchdog treats the session like any other
+                    out.append((h, role, ph, "early-probe:silent", 0))
+                    out.append((h, role, ph, "early-probe:periodic", round(0.5 * h, 3)))
+                    out.append((h, role, ph, "early-probe:answer", round(0.25 * h, 3)))
                 if ph in (0.0, 0.5):
                     # a dead peer whose socket also refuses the TestRequest: silent, and the write of the probe fails
                     for fault in ("reset-once", "reset-always", "pipe-always", "runtime-always"):
@@ -85,7 +91,7 @@ class Scn:
         self.violated = False
         self.tdisc = None
 
-    async def start(self, phase):
+    async def start(self, phase, early_probe=False):
         from asyncfix import FIXMessage, Journaler
         from asyncfix.connection import ConnectionState as CS
         from vf.sim import endpoint as E
@@ -107,6 +113,15 @@ class Scn:
             await asyncio.sleep(phase)
         if self.role == "initiator":
             await ep.send_msg(FIXMessage("A", {98: 0, 108: self.h}))
+        if early_probe:
+            n0 = len(ep.vf_tap)
+            try:
+                await ep.send_test_req()
+                self.acc.add("early_probes_accepted")
+            except Exception:
+                self.acc.add("early_probes_refused")
+            if len(ep.vf_tap) != n0:
+                self.acc.add("early_probes_written")
         self.feed("A", [(98, 0), (108, self.h)])
         await settle()
         return ep.connection_state == CS.ACTIVE
@@ -156,7 +171,7 @@ class Scn:
     def V(self, key, what, extra=None):
         if not self.violated:
             self.violated = True
-            self.acc.violation(key, what, self.witness(extra), self.cid)
+            self.acc.violation(key + getattr(self, "key_suffix", ""), what, self.witness(extra), self.cid)
 
     def stop(self):
         from vf.sim import endpoint as E
@@ -183,8 +198,12 @@ async def scenario(acc, clock, sc, cid, rnd=None):
     from vf.sim.net import settle
     h, role, phase, kind, par = sc
     s = Scn(acc, clock, h, role, cid, list(sc))
+    early = kind.startswith("early-probe:")
+    if early:
+        kind = kind.split(":", 1)[1]
+        s.key_suffix = ":after-a-refused-early-probe"
     try:
-        if not await s.start(phase):
+        if not await s.start(phase, early_probe=early):
             acc.add("start_state_not_reached")
             return False
         eps = 1e-6
